@@ -338,7 +338,7 @@ OBLIGATIONS = [
        bounds='sha1/sha256/sha512, letters A-F, key length 0..3 digests+3 (capped at 83 bytes)'),
     Ob('segmentation', segmentation, sym=dict(c1=R(0, 260), r1=B, r2=B),
        shards=dict(onebyte=[False], d=[0, 5], r1=[True, False], r2=[True], bm=[0, 1]),
-       thorough_shards=dict(onebyte=[False, True], d=[0, 1, 2, 3, 4, 5, 8, 9, 16, 17, 40, 100], r1=[True, False], r2=[True, False], bm=[0, 1, 2, 3, 4]),
+       thorough_shards=dict(onebyte=[False, True], d=[0, 1, 5, 9, 17, 40], r1=[True, False], r2=[True, False], bm=[0, 1, 2, 4]),
        timeout=250, thorough_timeout=900,
        functions=[C.SSHConnection._recv_data, C.SSHConnection._recv_pkthdr, C.SSHConnection._recv_packet,
                   C.SSHConnection._finish_recv_packet, C.SSHConnection._process_kexinit],
